@@ -7,11 +7,14 @@ verus! {
 //@ rewrite R2 "dyn CosmosRouter<ExecC = ExecC, QueryC = QueryC>" => "dyn CosmosRouter<ExecC, QueryC>"
 //@ include prelude/base.rs
 //@ include spec/lex.rs
+//@ include spec/lp.rs
+//@ include spec/range.rs
 //@ include prelude/std_ext.rs
 //@ include prelude/cosmwasm.rs
 //@ include contracts/repo_types.rs
 //@ include prelude/router_traits.rs
 //@ include prelude/wasm_traits.rs
+//@ include prelude/cw_plus.rs
 //@ include contracts/wasm_types.rs
 //@ include spec/wasm_sem.rs
 //@ include spec/wasm_resp.rs
@@ -19,7 +22,9 @@ verus! {
 //@ include_stubs contracts/wasm_stub_submsg.rs
 //@ include_stubs contracts/wasm_reply.rs
 //@ include_stubs contracts/wasm_stub_calls.rs
-//@ include_stubs contracts/wasm_stub_registry.rs
+//@ include_stubs contracts/prefixed_ns.rs
+//@ include_stubs contracts/prefixed_mod.rs
+//@ include_stubs contracts/wasm_registry.rs
 //@ include contracts/wasm_exec.rs
 } // verus!
 fn main() {}
